@@ -166,6 +166,14 @@ def get_txt_pos_ml(toks, main_lang, parms):
             cur_sec.append(t)
             continue
         if t.lang == lang_stack[-1]:
+            if not (t.back or t.hard):
+                # keep the stack balanced for the closing token
+                lang_stack.append(t.lang)
+            continue
+        if (t.back and len(lang_stack) > 1
+                and lang_stack[-2] == lang_stack[-1]):
+            # end of a switch to the language already in force
+            lang_stack.pop()
             continue
         txt, pos = get_txt_pos(cur_sec)
         cur_sec = []
